@@ -246,7 +246,7 @@ impl<F: Float, R: Rng + Clone, DA: Data<Elem = F>, T, D: Distance<F>>
                 self.init_method()
                     .run(self.dist_fn(), self.n_clusters(), observations, &mut rng);
             let mut n_iter = 0;
-            let inertia = loop {
+            loop {
                 update_memberships_and_dists(
                     self.dist_fn(),
                     &centroids,
@@ -261,9 +261,20 @@ impl<F: Float, R: Rng + Clone, DA: Data<Elem = F>, T, D: Distance<F>>
                 centroids = new_centroids;
                 n_iter += 1;
                 if distance < self.tolerance() || n_iter == self.max_n_iterations() {
-                    break dists.sum();
+                    break;
                 }
-            };
+            }
+            // The memberships and distances computed inside the loop belong to the centroids
+            // *before* the last update: recompute them for the centroids of this run, so that
+            // the inertia (and the cluster counts) describe the centroids that are returned.
+            update_memberships_and_dists(
+                self.dist_fn(),
+                &centroids,
+                &observations,
+                &mut memberships,
+                &mut dists,
+            );
+            let inertia = dists.sum();
 
             // We keep the centroids which minimize the inertia (defined as the sum of
             // the squared distances of the closest centroid for all observations)
